@@ -447,7 +447,52 @@ def run_replay(path):
         shutil.rmtree(tmp, ignore_errors=True)
 
 
+def run_selftest(prop, reps=3):
+    """Determinism self-test: run the quick tier's first runs several times, in
+    separate processes, at GOMAXPROCS 1, 4 and 16 and different shard counts;
+    every run's digest (what it observed and its verdict) must be identical."""
+    P = PROPS[prop]
+    tmp = tempfile.mkdtemp(prefix="verif-selftest-%s-" % prop, dir=os.environ.get("VERIF_TMPROOT", "/tmp"))
+    try:
+        worker, _ = build_worker(tmp, P.get("build", "plain"))
+        runs = int(os.environ.get("VERIF_SELFTEST_RUNS", "400"))
+        all_digests = []
+        for rep, (gmp, nsh) in enumerate([(1, 4), (4, 7), (16, 16)][:reps]):
+            env = dict(ENV, VERIF_PROP=prop, VERIF_TIER="quick", VERIF_SEED=os.environ.get("VERIF_SEED", "1"), VERIF_NSHARDS=str(nsh),
+                       VERIF_RUNS=str(runs), VERIF_BUDGET_S="300", VERIF_REPLAY_DIR=os.path.join(tmp, "replays"),
+                       VERIF_KNOWN=os.path.join(VERIF, "known_findings.jsonl"), VERIF_TMP=tmp, GOMAXPROCS=str(gmp), VERIF_DIGESTS="1",
+                       VERIF_MAX_VIOL="1000000", VERIF_MIN_RUNS="0", VERIF_NO_ENUM="1")
+            procs = []
+            for sh in range(nsh):
+                out = os.path.join(tmp, "st_%d_%d.json" % (rep, sh))
+                e = dict(env, VERIF_SHARD=str(sh), VERIF_OUT=out)
+                procs.append((out, subprocess.Popen([worker, "-test.run", "^TestWorker$", "-test.timeout", "0"], env=e, cwd=tmp,
+                                                    stdout=subprocess.DEVNULL, stderr=subprocess.DEVNULL, preexec_fn=limit_mem)))
+            d = {}
+            for out, pr in procs:
+                pr.wait()
+                if os.path.exists(out):
+                    d.update(json.load(open(out)).get("digests") or {})
+            all_digests.append(d)
+            log("selftest %s rep %d: GOMAXPROCS=%d shards=%d -> %d run digests" % (prop, rep, gmp, nsh, len(d)))
+        base = all_digests[0]
+        bad = []
+        for d in all_digests[1:]:
+            for k, v in base.items():
+                if k in d and d[k] != v:
+                    bad.append(k)
+        if bad:
+            log("SELFTEST-FAILED property=%s: %d runs differ between repetitions, e.g. %s" % (prop, len(set(bad)), sorted(set(bad))[:10]))
+            return 2
+        log("SELFTEST-OK property=%s: %d runs identical across %d repetitions" % (prop, len(base), len(all_digests)))
+        return 0
+    finally:
+        shutil.rmtree(tmp, ignore_errors=True)
+
+
 def main():
+    if len(sys.argv) >= 3 and sys.argv[1] == "selftest":
+        sys.exit(run_selftest(sys.argv[2]))
     if len(sys.argv) >= 3 and sys.argv[1] == "replay":
         sys.exit(run_replay(sys.argv[2]))
     if len(sys.argv) < 3:
